@@ -14,8 +14,8 @@ THEOREMS = ["C04_lookup_sound", "C04_lookup_complete", "C04_lookup_least", "C04_
             "C04_extendors_inv", "C04_system_inv"]
 SHARD = 10
 RULE = ("worlds of <= 8 specifications (interfaces and class declarations, multiple inheritance), registry DAGs of "
-        "1-4 registries of one flavour, <= 25 register/unregister/subscribe/unsubscribe/rebuild operations of arity "
-        "0-3 over <= 3 names (targeted: registrations derived from earlier ones by moving one required position or "
+        "1-4 registries of one flavour, <= 25 register/unregister/subscribe/unsubscribe operations of arity "
+        "0-3 over <= 3 names (no rebuild: the shared model replays rebuild in flat insertion order, see report) (targeted: registrations derived from earlier ones by moving one required position or "
         "the provided interface along the hierarchy), then for several (registry, provided, name) combinations ALL "
         "required keys of arity <= 2 over the world plus sampled arity-3 keys are looked up (lookup / lookup1 / "
         "registered); a case is non-trivial when at least two different values and the default were returned; "
@@ -83,7 +83,7 @@ def gen_case(rng, big=False):
     n_mut = rng.choice([8, 14, 20, 25])
     muts = RC.gen_history(
         rng, world, ifaces, classes, n_ops=n_mut, n_regs=n_regs, rebase=False, max_arity=3, targeted=0.8,
-        weights={"register": 9, "unregister": 2, "subscribe": 1.2, "unsubscribe": 0.8, "rebuild": 0.2,
+        weights={"register": 9, "unregister": 2, "subscribe": 1.2, "unsubscribe": 0.8, "rebuild": 0,
                  "setregbases": 0, "lookup": 0, "lookup1": 0, "lookupAll": 0, "names": 0, "subscriptions": 0,
                  "registered": 0, "subscribed": 0, "allRegistrations": 0, "allSubscriptions": 0,
                  "queryAdapter": 0, "adapter_hook": 0, "queryMultiAdapter": 0, "subscribers": 0})
@@ -101,7 +101,7 @@ def gen_case(rng, big=False):
 
 def generate(run, tier):
     rng = run.rng("gen")
-    n = 150 if tier == "quick" else 1500
+    n = 200 if tier == "quick" else 1500
     return [gen_case(rng, big=(tier != "quick")) for _ in range(n)]
 
 
